@@ -12,6 +12,7 @@ import (
 	"errors"
 	"fmt"
 	"io"
+	"math"
 	"sort"
 	"strconv"
 )
@@ -218,6 +219,13 @@ func ReadFrom(r io.Reader) (idx Index, err error) {
 			return nil, parseError(line, basesField, errInvalidRecord)
 		case r.BytesPerLine < r.BasesPerLine:
 			return nil, parseError(line, bytesField, errInvalidRecord)
+		}
+		if r.BasesPerLine != 0 {
+			// The offset of the last base must be representable.
+			room := int64(math.MaxInt64) - int64(r.BasesPerLine)
+			if r.Start > room || int64(r.Length/r.BasesPerLine) > (room-r.Start)/int64(r.BytesPerLine) {
+				return nil, parseError(line, startField, errInvalidRecord)
+			}
 		}
 		idx[rec[nameField]] = r
 	}
